@@ -41,7 +41,7 @@ mutant('C08', 'torque-nocurrent-plus', DC, """value=(1 - self.angular_speed /
 mutant('C08', 'torque-unit-mismatch', DC, """value=(1 - self.angular_speed/no_load_speed)*maximum_torque.value,
             unit=self.maximum_torque.unit""", """value=(1 - self.angular_speed/no_load_speed)*maximum_torque.to('Nm').value,
             unit=self.maximum_torque.unit""", 'C08')
-mutant('C08', 'current-uses-Tmax', DC, "(self.driving_torque/maximum_torque) + no_load_electric_current", "(self.driving_torque/self.maximum_torque) + no_load_electric_current", 'C08.law.current')
+mutant('C08', 'current-uses-Tmax', DC, "            load_factor = self.driving_torque/maximum_torque\n", "            load_factor = self.driving_torque/self.maximum_torque\n", 'C08.law.current')
 mutant('C08', 'current-neg-i0-sign', DC, "no_load_electric_current = -self.no_load_electric_current", "no_load_electric_current = self.no_load_electric_current", 'C08')
 mutant('C08', 'current-deadzone-formula', DC, "self.pwm/pwm_min*self.no_load_electric_current.to(", "self.pwm*pwm_min*self.no_load_electric_current.to(", 'C08.law.current')
 mutant('C08', 'torque-deadzone-nonzero', DC, "self.driving_torque = Torque(0, unit=self.maximum_torque.unit)", "self.driving_torque = Torque(1e-9, unit=self.maximum_torque.unit)", 'C08.law.torque')
@@ -59,7 +59,7 @@ benign('C08', 'rename-local', DC, """        pwm_min = self.no_load_electric_cur
         elif self.pwm > dead:""")
 # not benign: `.value` is read in the unit of the leftmost operand, which becomes the no-load current's unit
 mutant('C08', 'current-value-read-in-other-unit', DC, """(maximum_electric_current - no_load_electric_current) *
-                (self.driving_torque/maximum_torque) + no_load_electric_current""", """no_load_electric_current + (self.driving_torque/maximum_torque) *
+                load_factor + no_load_electric_current""", """no_load_electric_current + load_factor *
                 (maximum_electric_current - no_load_electric_current)""", 'C08')
 benign('C08', 'threshold-cross-multiplied', DC, 'if abs(self.pwm) <= pwm_min:', 'if abs(self.pwm)*self.maximum_electric_current <= self.no_load_electric_current:', nth=0)
 
@@ -331,7 +331,7 @@ mutant('C15', 'limit-window-ge', SLC, "        if angular_position <= self.__tar
 mutant('C15', 'limit-root-minus', SLC, "                speed_ratio + electric_ratio + np.sqrt(", "                speed_ratio + electric_ratio - np.sqrt(", 'C15')
 mutant('C15', 'limit-2i0-to-i0', SLC, "                            2*no_load_electric_current", "                            no_load_electric_current", 'C15')
 mutant('C15', 'limit-speed-ratio-inverted', SLC, "        speed_ratio = angular_speed/no_load_speed", "        speed_ratio = no_load_speed/angular_speed", 'C15')
-mutant('C15', 'motor-current-law-changed-under-rule', DC, "(self.driving_torque/maximum_torque) + no_load_electric_current", "(self.driving_torque/maximum_torque) - no_load_electric_current", 'C15.limit-identity')
+mutant('C15', 'motor-current-law-changed-under-rule', DC, "                load_factor + no_load_electric_current", "                load_factor - no_load_electric_current", 'C15.limit-identity')
 benign('C15', 'limit-half-factor', SLC, "            return 1/2*(", "            return 0.5*(")
 benign('C15', 'reach-rename', RA, "regime_angular_position_error", "static_err")
 benign('C15', 'timer-rewritten-end', TM, "((current_time - self.start_time) <= self.duration)", "(current_time <= self.start_time + self.duration)")
@@ -814,3 +814,12 @@ mutant('C05', 'ctor-drops-unit', UN, "        self.__value = value\n        self
 
 # ------------------------------------------------------------------------------------------ C12 pre-run state read at instant 0
 mutant('C12', 'control-before-load-torque', SV, "        self._compute_load_torque()\n        self._compute_motor_control(motor_control=motor_control)\n", "        self._compute_motor_control(motor_control=motor_control)\n        self._compute_load_torque()\n", 'C12.reset')
+
+# ------------------------------------------------------------------------------------------ round 3: dependencies and lookups
+mutant('C07', 'pressure-angle-compared-other-way-round', WG, "        if pressure_angle not in WORM_GEAR_AND_WHEEL_AVAILABLE_PRESSURE_ANGLES:", "        if not any(pressure_angle == available for available in WORM_GEAR_AND_WHEEL_AVAILABLE_PRESSURE_ANGLES):", 'C07.tolerance-side')
+benign('C07', 'pressure-angle-any-constant-left', WG, "        if pressure_angle not in WORM_GEAR_AND_WHEEL_AVAILABLE_PRESSURE_ANGLES:", "        if not any(available == pressure_angle for available in WORM_GEAR_AND_WHEEL_AVAILABLE_PRESSURE_ANGLES):")
+mutant('C07', 'lt-uses-ne-predicate', UB, "            return self.value - other.to(\n                self.unit\n            ).value < -COMPARISON_TOLERANCE", "            return fabs(self.value - other.to(self.unit).value) > COMPARISON_TOLERANCE", 'C07.dep.cmp')
+mutant('C09', 'lewis-lookup-by-searchsorted', MB, "    return WORM_GEAR_AND_WHEEL_DATA.loc[\n        WORM_GEAR_AND_WHEEL_AVAILABLE_PRESSURE_ANGLES.index(pressure_angle),\n        'Lewis Factor'\n    ]", "    row = WORM_GEAR_AND_WHEEL_DATA['Pressure Angle'].searchsorted(pressure_angle.to('deg').value)\n    return WORM_GEAR_AND_WHEEL_DATA.loc[row, 'Lewis Factor']", 'C09.worm-table.key')
+mutant('C11', 'time-interval-radd-wrong-unit', UN, "    def __sub__(self, other: Time | TimeInterval) -> Time | TimeInterval:\n        super().__sub__(other=other)", "    def __radd__(self, other):\n        return Time(value=other.to(self.__unit).value + self.__value, unit=other.unit)\n\n    def __sub__(self, other: Time | TimeInterval) -> Time | TimeInterval:\n        super().__sub__(other=other)", 'C11.dep.arith')
+mutant('C03', 'instants-spaced-T-over-n', SV, "initial_time + k*time_discretization", "initial_time + k*(simulation_time/simulation_steps)", 'C03.euler.grid')
+mutant('C08', 'current-divides-by-zero-torque (pre-fix shape)', DC, "        if maximum_torque.value == 0:\n            load_factor = 0\n        else:\n            load_factor = self.driving_torque/maximum_torque\n", "        load_factor = self.driving_torque/maximum_torque\n", 'C08.boundary-division')
